@@ -196,8 +196,27 @@ pub fn check_case(c: &TextCase, obs: &mut Obs) -> Verdict {
     }
 }
 
+/// more than 100 short word tokens (at most 8 bytes each) from a vocabulary in which some words
+/// differ only by trailing NUL bytes ("ab" / "ab\0" / "ab\0\0", "1234567\0" / "12345678"): a key that
+/// pads or truncates tokens must not make them equal
+fn nul_twin_case() -> BoxedStrategy<TextCase> {
+    use proptest::collection::vec;
+    const VOCAB: &[&str] = &["x", "ab", "ab\0", "ab\0\0", "\0", "c\0", "c", "12345678", "1234567\0"];
+    (vec(0usize..VOCAB.len(), 55..=90), vec((any::<u16>(), 0usize..VOCAB.len()), 1..=6), 0u8..3, any::<bool>(), 0u8..8)
+        .prop_map(|(ws, edits, alg, bytes, opt)| {
+            let mut nw = ws.clone();
+            for (at, w) in edits {
+                let p = crate::gen::pos(at, nw.len() - 1);
+                nw[p] = w;
+            }
+            let render = |v: &Vec<usize>| v.iter().map(|i| VOCAB[*i]).collect::<Vec<_>>().join(" ");
+            TextCase { old: crate::gen::BStr(render(&ws).into_bytes()), new: crate::gen::BStr(render(&nw).into_bytes()), tok: 1, alg, bytes, opt }
+        })
+        .boxed()
+}
+
 fn strat(tier: Tier) -> BoxedStrategy<TextCase> {
-    prop_oneof![16 => text_case_mix(tier.pick(130, 200)), 4 => line_case(tier.pick(30, 150), true), 2 => big_line_case(tier.pick(130, 300)), 1 => distinct_line_case(tier.pick(300, 600))].boxed()
+    prop_oneof![32 => text_case_mix(tier.pick(130, 200)), 8 => line_case(tier.pick(30, 150), true), 4 => big_line_case(tier.pick(130, 300)), 2 => distinct_line_case(tier.pick(300, 600)), 1 => nul_twin_case()].boxed()
 }
 
 const CORE: &[&[u8]] = &[b"a", b"b", b" ", b"\n", b"\r", "\u{e9}".as_bytes(), b"\x80"];
@@ -231,7 +250,7 @@ impl Prop for C04 {
     type Case = TextCase;
     const ID: &'static str = "C04";
     fn rule() -> String {
-        "1 case in 6 builds its TextDiff under a deadline that has passed or runs out at one of the first probes (virtual clock): the approximation must reconstruct both texts like any other text diff; cases = (old text, new text, tokenizer in {lines, words, chars, unicode words, graphemes}, algorithm, str | [u8]); texts are concatenations of atoms (ASCII words, whitespace incl. NBSP/U+2028/U+3000/U+0085, LF/CR/CRLF/LFCR, combining marks, ZWJ and flag emoji, NUL/control, diff-looking fragments; for [u8] additionally 11 invalid UTF-8 fragments), new = independent or mutate(old) at atom level; sizes mostly <= 12 atoms, tail straddling 100 tokens; plus line-structured texts; plus an enumeration of all pairs of strings of <= 3 atoms over a 7-atom alphabet with a rotating tokenizer/algorithm. Oracle: concatenated values of non-Insert changes == old bytes, of non-Delete changes == new bytes; Equal has both indices, Delete only old, Insert only new; indices count 0,1,2,... per side; same through per-op iteration. 3 cases in 4 first put the diff object through a history of other queries (ratio, grouped_ops, unified diff, per-op and inline iteration, a dropped half-consumed iterator) before the judged iteration; 1 random case in 8 instead diffs two VIEWS INTO ONE BUFFER (truncated copy, tail view, adjacent views: texts that share memory). Non-trivial = texts differ and the diff has at least one Equal and one change; distinct = distinct serialized case.".into()
+        "1 case in ~50 is a word diff of 109-179 short tokens from a vocabulary whose words differ only by trailing NUL bytes; 1 case in 6 builds its TextDiff under a deadline that has passed or runs out at one of the first probes (virtual clock): the approximation must reconstruct both texts like any other text diff; cases = (old text, new text, tokenizer in {lines, words, chars, unicode words, graphemes}, algorithm, str | [u8]); texts are concatenations of atoms (ASCII words, whitespace incl. NBSP/U+2028/U+3000/U+0085, LF/CR/CRLF/LFCR, combining marks, ZWJ and flag emoji, NUL/control, diff-looking fragments; for [u8] additionally 11 invalid UTF-8 fragments), new = independent or mutate(old) at atom level; sizes mostly <= 12 atoms, tail straddling 100 tokens; plus line-structured texts; plus an enumeration of all pairs of strings of <= 3 atoms over a 7-atom alphabet with a rotating tokenizer/algorithm. Oracle: concatenated values of non-Insert changes == old bytes, of non-Delete changes == new bytes; Equal has both indices, Delete only old, Insert only new; indices count 0,1,2,... per side; same through per-op iteration. 3 cases in 4 first put the diff object through a history of other queries (ratio, grouped_ops, unified diff, per-op and inline iteration, a dropped half-consumed iterator) before the judged iteration; 1 random case in 8 instead diffs two VIEWS INTO ONE BUFFER (truncated copy, tail view, adjacent views: texts that share memory). Non-trivial = texts differ and the diff has at least one Equal and one change; distinct = distinct serialized case.".into()
     }
     fn assumptions() -> Vec<String> {
         vec!["str mode is used only for valid UTF-8 (by construction)".into()]
